@@ -60,6 +60,9 @@ def run(rep: core.Report):
     from rules import shared_forward
 
     shared_forward.run(rep, "R14j", "phonopy/api_phonopy.py", "Phonopy", 60)
+    from rules import shared_freshwrite
+
+    shared_freshwrite.run(rep, "R14m", ["phonopy/phonon/group_velocity.py", "phonopy/phonon/qpoints.py", "phonopy/phonon/mesh.py", "phonopy/phonon/band_structure.py"], 3)
 
 
 # ---------------------------------------------------------------------------
